@@ -65,6 +65,9 @@ def _demoor(ctx, col):
             f"alpha = {show_norm(a)}, beta = {show_norm(b)}: alpha/beta = {show_norm(T_truediv(a, b))}, alpha*cov^2 = {show_norm(T_mul(a, T_mul(cov, cov)))}",
             text="gamma parameter relations")
     table = I.attrs.get("demand_probabilities")
+    if table is not None:
+        from .c13 import fold_normal
+        table = fold_normal(table)
     grid = ("app", "hstack", (ZERO, ("app", "arange", (K(0.5), T_add(D, K(1.5))))))
     dist = ("app", "numpyro.distributions.Gamma", (a, b))
     delta = ("app", "np.diff", (("app", ".cdf", (dist, grid)),))
